@@ -188,7 +188,7 @@ class ShuffleReduce(Expr):
         # Make sure we have dataframe-like data to shuffle
         if split_by_index:
             if self.frame.ndim == 1:
-                chunked = ResetIndex(self.frame, drop=False, name=self.frame.name)
+                chunked = ResetIndex(self.frame, drop=False, name=columns[0])
             else:
                 chunked = ResetIndex(self.frame, drop=False)
             if split_by == [None]:
@@ -242,6 +242,9 @@ class ShuffleReduce(Expr):
         if self.shuffle_by_index is not False:
             if is_series_like(self._meta) and is_series_like(self.frame._meta):
                 shuffled = shuffled[shuffled.columns[0]]
+                if shuffled._meta.name != self.frame._meta.name:
+                    # the column carries the placeholder of a Series without name
+                    shuffled = RenameSeries(shuffled, self.frame._meta.name)
             elif is_index_like(self._meta):
                 column = shuffled.columns[0]
                 divs = None if shuffled.divisions[0] is None else shuffled.divisions
